@@ -6,7 +6,7 @@ import warnings
 from hypothesis import strategies as st
 
 from .. import dimsegen as dg, fakedul as fd, refcmd, svc
-from ..common import Violation, HarnessError, hyp_search, parallel, lib_frame
+from ..common import Violation, HarnessError, hyp_search, parallel, lib_frame, quiet_warnings
 
 LEVEL = 'exploration'
 PROP = 'C17'
@@ -456,7 +456,7 @@ def nontrivial(fam, value):
 
 
 def run_family(ctx, job):
-    warnings.simplefilter('ignore')
+    quiet_warnings()
     fam = job['family']
     strat, fn = FAMILIES[fam]
     # boundary message ids exhaustively with otherwise default values
@@ -499,7 +499,7 @@ def run_family(ctx, job):
 
 
 def run(ctx):
-    warnings.simplefilter('ignore')
+    quiet_warnings()
     ctx.rule = ('one Hypothesis search per provider callable (verification_scp, storage_scp in memory and file-backed, '
                 'qr_find_scp, modality_work_list_scp, qr_move_scp with a scripted destination, StorageCommitment '
                 'n_action incl. its N-EVENT-REPORT on the sub-association and a retry with the same Transaction UID after a result that could not be reported, an application-defined dispatcher service of another class having served N-ACTION / N-EVENT-REPORT earlier in the process, StorageCommitment n_event_report): message '
@@ -516,7 +516,7 @@ def run(ctx):
 
 
 def replay(case):
-    warnings.simplefilter('ignore')
+    quiet_warnings()
     LAZY[0] = bool(case.get('lazy'))
     s = case['svc']
     if s == 'n_action-retry':
